@@ -299,3 +299,99 @@ def stmt_list(body):
 
 def has_goto(n):
     return any(x["k"] == "Goto" for x in walk(n))
+
+
+def escapes_without(fn_body, start, is_barrier, pmap=None):
+    """Structured path analysis: starting right after statement `start` (a node somewhere in fn_body), is there a path to a
+    `return` (or the end of the function) that does not execute a statement for which is_barrier(stmt) holds?
+    Returns the list of offending exits (Return nodes, or the string 'end of function').  Throw ends a path harmlessly.
+    Loops are assumed to run zero or more times; `break`/`continue` continue behind the enclosing loop (continue: also
+    behind it, conservatively).  The code must not contain goto (callers check)."""
+    if pmap is None:
+        pmap = {}
+        for x in walk(fn_body):
+            for ch in children(x):
+                pmap[id(ch)] = x
+    LOOPS = ("For", "While", "ForRange", "Do")
+
+    def run(stmts):
+        """outcomes of executing stmts from a state where no barrier was seen: set of ('fall'|'break'|'done'|('ret', node))"""
+        out = {"fall"}
+        for s in stmts:
+            if "fall" not in out:
+                break
+            out.discard("fall")
+            out |= eff(s)
+        return out
+
+    def eff(s):
+        k = s.get("k")
+        if is_barrier(s):
+            return {"done"}
+        if k == "Return":
+            return {("ret", id(s), s.get("l"))}
+        if k == "Throw":
+            return {"done"}
+        if k in ("Break", "Continue"):
+            return {"break"}
+        if k == "Block":
+            return run(s["c"])
+        if k == "If":
+            a = run(stmt_list_raw(s["then"]))
+            b = run(stmt_list_raw(s["else"])) if s.get("else") is not None else {"fall"}
+            return a | b
+        if k in LOOPS:
+            r = run(stmt_list_raw(s["body"]))
+            res = {"fall"}
+            for o in r:
+                if o in ("fall", "break"):
+                    res.add("fall")
+                elif o == "done":
+                    pass        # a barrier inside a loop body is not guaranteed (zero iterations)
+                else:
+                    res.add(o)
+            return res
+        if k == "Try":
+            return run(stmt_list_raw(s["body"])) if isinstance(s.get("body"), dict) else {"fall"}
+        if k == "Switch":
+            return {"fall"} | {o for o in run(stmt_list_raw(s.get("body") or {"k": "Block", "c": []})) if o != "break"}
+        if any(x.get("k") == "Throw" for x in walk(s)) and k not in ("Decl",):
+            return {"fall"}
+        return {"fall"}
+
+    bad = []
+    cur = start
+    state = {"fall"}
+    while True:
+        par = pmap.get(id(cur))
+        if par is None:
+            if "fall" in state:
+                bad.append("end of function")
+            break
+        nxt = set()
+        if par.get("k") == "Block":
+            idx = [i for i, x in enumerate(par["c"]) if x is cur][0]
+            if "fall" in state:
+                r = run(par["c"][idx + 1:])
+                state.discard("fall")
+                state |= r
+        elif par.get("k") in LOOPS:
+            # leaving the body by falling off its end or by break/continue: go on behind the loop
+            if "fall" in state or "break" in state:
+                state.discard("break")
+                state.add("fall")
+        for o in list(state):
+            if isinstance(o, tuple):
+                bad.append(o)
+                state.discard(o)
+        state.discard("done")
+        if not state:
+            break
+        cur = par
+    return bad
+
+
+def stmt_list_raw(body):
+    if body is None:
+        return []
+    return body["c"] if body.get("k") == "Block" else [body]
